@@ -76,7 +76,7 @@ def fresh_filters(n, salt, nrows=12):
     while len(out) < n:
         u = next(_COUNTER)
         v = (salt + i) % 6
-        kind = (salt + i) % 10
+        kind = (salt + i) % 11
         i += 1
         z = 'zz%d_%d' % (salt, u)
         if kind == 0:
@@ -100,6 +100,11 @@ def fresh_filters(n, salt, nrows=12):
                         lambda rows, r, lim=lim: r['t'].tzinfo is not None and r['t'] < lim))
         elif kind == 8:
             out.append(('r == @id%d and not %s' % (v % nrows, z), lambda rows, r, v=v: r['r'].name == 'id%d' % (v % nrows)))
+        elif kind == 10:
+            # two filters that differ in nothing but the value of a literal
+            v2 = (v + 1) % 6
+            out.append(('n == %d and k and not %s' % (v, z), lambda rows, r, v=v: r['n'] == v and 'k' in r))
+            out.append(('n == %d and k and not %s' % (v2, z), lambda rows, r, v=v2: r['n'] == v and 'k' in r))
         else:
             w = (v + 1) % 6 if (v + 1) % 2 else (v + 2) % 6     # an odd n value: rows with k and n == w exist
             out.append(('(k or n == %d) and n != %d and not %s' % (v, w, z),
@@ -329,6 +334,10 @@ def run(part, args, env):
                 ops.append(['eval', hot])
             if i % 37 == 5:
                 ops.append(['mutate', i])
+            if i in (505, 520, 560, 599):
+                # filters compiled as #100..#199 (and #10..#19) are still cached now; the first ones are being evicted
+                for j in (101, 117, 150, 199, 12 + v, 60):
+                    ops.append(['eval', j])
         ops.append(['gc', 0])
         for i in range(0, 60):
             ops.append(['eval', (i * 7 + v) % 700])         # evicted and still-cached ones
